@@ -23,45 +23,6 @@ REG = dict(category="model_checking",
     design_ref="DESIGN.md §4 C17")
 
 
-def validate_strict(chk, events, module, cfg, name, variant="std", timeout=3000):
-    """T direction, as engine.Check.validate, but a TLC run that reports 'Invariant TraceOK is violated' is a rejection
-    even when TLC (run with -continue) ends with 'No error has been found' and exit code 0."""
-    import re, vlib
-    from vlib import Infra, log
-    if not events:
-        raise Infra("empty trace for " + name)
-    path = "%s/%s.trace.ndjson" % (chk.out, name)
-    vlib.write_ndjson(path, events)
-    r = chk.tlc(module, cfg, env={"TRACE": path}, extra=("-continue",), timeout=timeout, expect_ok=False)
-    chk.traces_validated += len(events)
-    chk.evaluations += len(events)
-    for ev in events:
-        chk.case_labels["T:" + chk.label_of(ev)] += 1
-    if len(chk.samples) < 6:
-        chk.samples.append({"direction": "impl->spec", "variant": variant, "event": chk.shorten(events[len(events) // 3])})
-    if r.ok and not r.invariant_violated:
-        log("[%s] trace %s: %d events accepted (%.1fs)" % (chk.pid, name, len(events), r.wall))
-        return True
-    if not r.invariant_violated:
-        raise Infra("trace validation %s could not be evaluated:\n%s" % (name, r.tail(60)))
-    idxs = sorted(set(int(x) for x in re.findall(r"/\\ cur = (\d+)", r.out)))
-    bad = [events[i - 1] for i in idxs if 1 <= i <= len(events)]
-    if not bad:
-        raise Infra("trace %s rejected but no event index found:\n%s" % (name, r.tail(60)))
-    p2 = "%s/%s.recheck.ndjson" % (chk.out, name)
-    vlib.write_ndjson(p2, bad)                      # a rejection must repeat on re-validation of the same events
-    r2 = chk.tlc(module, cfg, env={"TRACE": p2}, extra=("-continue",), timeout=timeout, expect_ok=False)
-    if r2.ok and not r2.invariant_violated:
-        chk.notes.append("trace rejection of %s not reproduced on re-validation" % name)
-        return True
-    idx2 = sorted(set(int(x) for x in re.findall(r"/\\ cur = (\d+)", r2.out)))
-    bad2 = [bad[i - 1] for i in idx2 if 1 <= i <= len(bad)] or bad
-    for ev in bad2[:20]:
-        chk.violation("trace %s: event rejected by the specification" % name, [ev], variant)
-    log("[%s] trace %s: %d of %d events REJECTED" % (chk.pid, name, len(bad2), len(events)))
-    return False
-
-
 def flip(b, bit):
     b = list(b); b[bit // 8] ^= 1 << (bit % 8); return b
 
@@ -150,7 +111,7 @@ def run(chk):
     for v in (["std"] if quick else ["std", "verify", "i64", "noasm"]):
         chk.replay(recs, v, "every schedule of incremental aggregation + generated boundary records")
     # T: aggregates made by the library, decided by TLC
-    validate_strict(chk, driver(chk, 24 if quick else 400), MODULE, "C17_trace.cfg", "driver")
+    chk.validate(driver(chk, 24 if quick else 400), MODULE, "C17_trace.cfg", "driver", timeout=3000)
     return chk.finish(LEVEL,
         "History machine: TLC explores every composition of incremental aggregation steps (invariants: schedule-independent bytes, the aggregate verifies); "
         "each transition and each complete composition is executed on the real API. G: TLC enumerates Cases of C17_HalfAgg.tla (counts, all buffer lengths, "
